@@ -286,20 +286,28 @@ func (p *Prog) KillsField(ins ssa.Instruction, f *types.Var) bool {
 func (p *Prog) StaticCallSites(fn *ssa.Function) []ssa.Instruction {
 	p.scsOnce.Do(func() {
 		p.scs = map[*ssa.Function][]ssa.Instruction{}
+		// calls inside a generic body target an instantiation wrapper: book every
+		// site under the generic origin as well
+		add := func(g *ssa.Function, ins ssa.Instruction) {
+			p.scs[g] = append(p.scs[g], ins)
+			if o := g.Origin(); o != nil && o != g {
+				p.scs[o] = append(p.scs[o], ins)
+			}
+		}
 		for _, f := range p.ModuleFunctions() {
 			Instrs(f, func(ins ssa.Instruction) {
 				switch x := ins.(type) {
 				case *ssa.Call:
 					if g := x.Call.StaticCallee(); g != nil {
-						p.scs[g] = append(p.scs[g], ins)
+						add(g, ins)
 					}
 				case *ssa.Go:
 					if g := x.Call.StaticCallee(); g != nil {
-						p.scs[g] = append(p.scs[g], nil)
+						add(g, nil)
 					}
 				case *ssa.Defer:
 					if g := x.Call.StaticCallee(); g != nil {
-						p.scs[g] = append(p.scs[g], nil)
+						add(g, nil)
 					}
 				}
 				for _, op := range ins.Operands(nil) {
@@ -310,7 +318,7 @@ func (p *Prog) StaticCallSites(fn *ssa.Function) []ssa.Instruction {
 						if ci, isCall := ins.(ssa.CallInstruction); isCall && ci.Common().Value == ssa.Value(g) {
 							continue
 						}
-						p.scs[g] = append(p.scs[g], nil)
+						add(g, nil)
 					}
 				}
 			})
